@@ -1,4 +1,5 @@
 import IxaiVerif.Driver.Kernels
+import IxaiVerif.Driver.Explain
 
 namespace Ixai.Driver
 open Lean
@@ -11,6 +12,17 @@ def dispatch (j : Json) : Except String Json := do
   | "storage" => opStorage j
   | "welford_f" => opWelfordF j
   | "es_f" => opESF j
+  | "mv" => opMV j
+  | "sw" => opSW j
+  | "normalize" => opNormalize j
+  | "confbound_f" => opConfBoundF j
+  | "riverloss" => opRiverLoss j
+  | "pfi_run" => opSageRun false j
+  | "sage_run" => opSageRun true j
+  | "batch_run" => opBatchRun j
+  | "interval_run" => opIntervalRun j
+  | "pfi_eff" => opEffRun false j
+  | "sage_eff" => opEffRun true j
   | "ping" => pure (Json.mkObj [("pong", Json.bool true)])
   | o => .error s!"unknown op {o}"
 
